@@ -650,6 +650,14 @@ class Gen:
             tb += self.uses(x, et[x], et)
         jump = r.choice(["brk", "cont"])
         self.stat("break" if jump == "brk" else "continue")
+        carried = [x for x in env if x not in self.protected and not (self.self_cls is not None and x == 0)
+                   and (len(self.decl[x]) > 1 or isinstance(self.decl[x][0], tuple))]
+        if carried and r.random() < 0.6:
+            # assign a local just before jumping: the loop head (continue) / the code after the loop (break)
+            # must account for the assigned type
+            x = r.choice(carried)
+            tb.append(("assign", x, self.expr(self.pick_subtype(self.decl[x]), et, 1)))
+            self.stat("assign-before-jump")
         return ("ite", cond, seq(tb + [(jump,)]), ("pass",)), ef
 
     def pick_subtype(self, t):
@@ -880,13 +888,19 @@ def all_bodies(p: Prog):
     yield from p.funcs
 
 
-def perturb(p: Prog, rng):
-    """one ill-typing edit; returns (new program, description) or None"""
+PERTURBATIONS = ["drop-guard", "swap-lit", "widen-param", "swap-args", "ret-type", "attr-type", "none-arg", "drop-init",
+                 "narrow-override", "cond-drop-left"]
+
+
+def perturb(p: Prog, rng, prefer: str | None = None):
+    """one ill-typing edit (the preferred kind if the program has a site for it); (new program, kind) or None"""
     import copy
     q = copy.deepcopy(p)
-    kinds = ["drop-guard", "swap-lit", "widen-param", "swap-args", "ret-type", "attr-type", "none-arg", "drop-init",
-             "narrow-override", "cond-drop-left"]
+    kinds = list(PERTURBATIONS)
     rng.shuffle(kinds)
+    if prefer is not None:
+        kinds.remove(prefer)
+        kinds.insert(0, prefer)
     for kind in kinds:
         if kind == "drop-guard":
             sites = count_sites(q, lambda e: False, lambda s: s[0] == "ite" and s[1][0] in ("isinst", "isNone", "and", "not", "or"))
@@ -1005,6 +1019,12 @@ def perturb(p: Prog, rng):
             fd.params[i] = (t[0],) if len(t) > 1 else (I,)
             if fd.params[i] == t:
                 continue
+            a = fd.params[i][0]
+            if isinstance(a, tuple):
+                h = Hier(q.classes)
+                attrs = h.all_attrs(a[1])
+                if attrs:       # rely on the narrower parameter type inside the override
+                    fd.body = ("seq", ("expr", ("probe", 900000 + i, ("attr", ("var", i + 1), attrs[0][0]))), fd.body)
             return q, kind
         if kind == "cond-drop-left":
             pe = lambda e: e[0] == "and" and e[1][0] in ("isNone", "isinst", "var", "not")
@@ -1026,7 +1046,7 @@ def perturb(p: Prog, rng):
         if kind == "drop-init":
             # an F19 shape: declared, never assigned — mypy (and tc) accept it, WF does not
             cs = [cd for cd in q.classes if cd.init_assigns]
-            if not cs or rng.random() < 0.7:
+            if not cs or (prefer != kind and rng.random() < 0.7):
                 continue
             cd = rng.choice(cs)
             cd.init_assigns.pop(rng.randrange(len(cd.init_assigns)))
